@@ -560,4 +560,39 @@ example : ∀ ρ, agreeOn (refsOfRule W.rule) (setCell "w".toList (.null "None".
 example : scope_C06_F1 .strThenNa ("None".toList :: defaultNa) ["id".toList, "v".toList] W.table = false ∧ NoRawNulls W.table = false := by
   decide
 
+/-! ### the tree as it is now (after the `fix:` commits 9c796d5, d3020b6, e27ff10)
+
+The theorems above are stated for both shapes of the code (hypothesis `h` on the generated shape). The following ones have NO such
+hypothesis: they hold because the translator reads the repaired shapes from /repo, and they stop checking (naming the shape as the
+witness) if the source regresses to the recorded defects C06_F1/F3, C06_F2 or C06_F5. -/
+
+/-- C06_F1 / C06_F3 repaired: `_preprocess_data` keeps NULL objects as NULLs when casting to `str` -/
+theorem C06_current_order : Gen.preprocessKind = .keepNullThenNa := by decide
+
+/-- **Never a term, full strength, on the current tree**: every surviving row consists of genuine non-NA string values, for all tables -/
+theorem C06_never_a_term_current (na refs : List Str) (t : Table) (hcomp : Complete refs t = true)
+    (rows : List SRow) (hr : preprocessG Gen.preprocessKind na refs t = .ok rows) :
+    ∀ σ ∈ rows, GenuineValues na refs t σ :=
+  C06_never_a_term C06_current_order na refs t hcomp rows hr
+
+/-- C06_F2 repaired: the final `dropna` of `_read_json` is restricted to the rule's references -/
+theorem C06_current_json_drop : Gen.jsonFileShape.dropSubset = .references := by decide
+
+/-- … so the objects with a null / absent unreferenced sibling are kept (the witness of C06_F2 on the generated shape itself) -/
+theorem C06_F2_current :
+    (readJson Gen.jsonFileShape W.refs W.recs).map (fun ρ => lookup "id".toList ρ) =
+      [some (.str "1".toList), some (.str "2".toList), some (.str "3".toList)] := by
+  decide +kernel
+
+/-- C06_F5 repaired: a missing attribute of the iterator element is a NULL cell, not a KeyError (the witness of C06_F5 on the generated shape) -/
+theorem C06_F5_current :
+    readXml Gen.xmlShape ["@id".toList] [{ attrs := [("id".toList, "1".toList)] }, { attrs := [] }] =
+      .ok [[("@id".toList, .str "1".toList)], [("@id".toList, .null "None".toList)]] := by
+  decide +kernel
+
+/-- C06_F3 repaired (through the order of `_preprocess_data`): the `None` an empty XML element is read as is dropped, for the witness rule -/
+theorem C06_F1_current :
+    evalRuleG Gen.preprocessKind W.env [W.rule] W.rule = .ok ["<http://e/1> <http://e/p> \"a\"".toList] := by
+  decide +kernel
+
 end Props.C06
